@@ -368,9 +368,9 @@ def parse_cbmc_json(path, res, rc):
         res.status = "unwind"
         res.failed = unwind_fail
         res.detail = "unwinding assertion failed: %s" % unwind_fail[0][2]
-    elif any(v is False for v in res.covers.values()):
+    elif any(v is False for k, v in res.covers.items() if not k.rstrip('"').endswith("(opt)")):
         res.status = "vacuous"
-        res.detail = "cover not satisfied: %s" % [k for k, v in res.covers.items() if not v]
+        res.detail = "cover not satisfied: %s" % [k for k, v in res.covers.items() if not v and not k.rstrip('"').endswith("(opt)")]
     else:
         res.status = "ok"
 
